@@ -14,7 +14,8 @@ IMPORTS = ('Require Import V.Base.MachineInt V.Model.LogBase V.Model.Descriptor 
            'V.Model.ReaderThreads V.Model.ExclThreads V.Model.PollThreads V.Model.ClaimThreads V.Oracle.C02Oracle V.Oracle.C03Oracle '
            'V.Oracle.C03XOracle. Require V.Model.Reader.')
 PER_CASE_TIMEOUT = 5.0
-RULE = ('a polling subscriber (Image::poll through hook H3 when the repository has it, else term_reader::read through a copy of '
+RULE = ('kind bulkcrash (oracle only): the small configurations with the publisher going through Publication::offer_bulk, stopped for ever after every number of accesses, the reader polling afterwards. '
+        'a polling subscriber (Image::poll through hook H3 when the repository has it, else term_reader::read through a copy of '
         'Image::poll) with 1-2 publishers x 1-3 messages (unfragmented, fragmented, padding at the term end, rotation) on 1 KiB / 2 KiB '
         'terms under the deterministic H2 scheduler: random schedules, every schedule with at most one pre-emption of the small '
         'configurations, and - the crash points - every prefix length of a single publisher\'s access sequence after which the '
@@ -98,7 +99,7 @@ def _items(t):
 
 def _thread_line(t):
     if t['k'] == 'P':
-        return 'T=P:%d:%s' % (t['budget'], ','.join('%dx%d' % (k, l) for k, l in t['msgs']))
+        return 'T=%s:%d:%s' % ('B' if t.get('bulk') else 'P', t['budget'], ','.join('%dx%d' % (k, l) for k, l in t['msgs']))
     if t['k'] == 'X':
         return 'T=X:%d:%s' % (t['budget'], ','.join(_item_line(i, False) for i in _items(t)))
     if t['k'] == 'Q':
@@ -183,6 +184,8 @@ def is_x(c):
 
 
 def model_expr(c, mode):
+    if any(t.get('bulk') for t in c['threads']):
+        return None         # a publisher going through offer_bulk has no thread machine: judged by the oracle alone
     if is_x(c):
         return 'run_casex %s %s [%s] %s %s' % (cfg_expr(c), z(c['limit']), '; '.join(xthread_expr(c, t) for t in c['threads']),
                                                c02.coq_nat_list(c['sched']), c02.stops_expr(c))
@@ -379,6 +382,21 @@ def generate(rng, tier):
     only = os.environ.get('C03_ONLY')          # development aid: run the kinds with this prefix only
     if only:
         cases = [c for c in cases if c['kind'].startswith(only)]
+    # (bulk) the small configurations once more with the publisher going through Publication::offer_bulk (two buffers), stopped for
+    # ever after k accesses, the reader polling afterwards: no thread machine - the oracle alone judges (delivered = prefix of the
+    # committed frames, nothing written to a frame after its length word was committed, race detector)
+    import copy
+    for c in small_cases():
+        ub = steps_upper(c, c['threads'][0]) + 12
+        rub = steps_upper(c, c['threads'][1])
+        for k in range(0, ub + 1):
+            d = copy.deepcopy(c)
+            d['kind'] = 'bulkcrash'
+            d['threads'][0]['bulk'] = True
+            d['stops'] = [k, None]
+            d['sched'] = [0] * k + [1] * rub
+            cases.append(d)
+
     return cases
 
 
